@@ -92,7 +92,7 @@ def generate(rng, tier):
         prefix_b = "/" + "".join(c + "/" for c in ["q", "y", "z"][: max(0, p - 1)])
     nfiles = rng.range(1, 4)
     names = rng.sample(["src/lib.rs", "src/main.rs", "src/a/mod.rs", "src/a/deep/x.rs", "README.md", "build.rs", "src/data.txt",
-                        "tests/t.rs", "src/gen.rs.in", "Cargo.toml"], nfiles)
+                        "tests/t.rs", "src/gen.rs.in", "Cargo.toml", "-x.rs", "--check.rs"], nfiles)
     quoted = style == "git" and not abs_style and rng.chance(4)
     if quoted:
         # a file name outside ASCII, spelled the way git prints it by default (core.quotePath): in double quotes with
@@ -277,7 +277,14 @@ def execute(case):
                     v.add("C19:child-without-file-lines", det + " child argv %s" % call_argv)
                     continue
                 i = call_argv.index("--file-lines")
-                got_files = sorted(call_argv[:i])
+                rest = call_argv[i + 2:]
+                protected = rest[rest.index("--") + 1:] if "--" in rest else []
+                bare = call_argv[:i] + (rest[: rest.index("--")] if "--" in rest else rest)
+                got_files = sorted(bare + protected)
+                dashed = [a for a in bare if a.startswith("-")]
+                if dashed:
+                    # a path of the patch that begins with a dash, handed over where the formatter reads options
+                    v.add("C19:path-taken-for-option", "%s: file argument(s) %s are not behind a `--`; child argv %s" % (det, dashed, call_argv))
                 try:
                     got_ranges = sorted((r["file"], r["range"][0], r["range"][1]) for r in json.loads(call_argv[i + 1]))
                 except (ValueError, KeyError, IndexError):
